@@ -69,13 +69,22 @@ MANIFEST = dict(
          'parent package, _create_stub_map): the listing consulted is the present file system (stub_listing_fresh, '
          'from "no memo decorator" read by the translator) and the stub served equals what a fresh process serves '
          '(stub_as_fresh_process_partial); witness stale_if_stub_listing_cached. '
+         'WHICH time the layers compare is part of the model (Cfg.stampIsFsMtime / reported): all of the above is '
+         'proved from "every get_last_modified reachable from _load_python_module / parse_stub_module returns '
+         'os.path.getmtime of the file" (stamp_is_fs_mtime, rfl on the translator-read constant); witness '
+         'stale_if_stamp_truncated: a FileIO reporting whole seconds misses a strictly newer rewrite within the second '
+         'the tree was cached / pickled in, although AllOk holds. '
          'Tie: translator (cache=/diff_cache= keywords, ModuleCache per InferenceState, decorators of '
-         '_create_stub_map/_merge_create_stub_map, parso\'s two '
-         'comparisons as installed) + probed layer/version and stub-choice correspondence on generated mutation sequences + '
-         'direct oracle against a brand-new interpreter with an empty cache directory.',
+         '_create_stub_map/_merge_create_stub_map, every get_last_modified of jedi/file_io.py and parso/file_io.py '
+         'classified full-resolution / whole-second / unknown, parso\'s two '
+         'comparisons as installed) + probed layer/version and stub-choice correspondence on generated mutation sequences '
+         'at edit spacings from 1 ms (whole history within one clock second) to 10 s + '
+         'direct oracle against a brand-new interpreter with an empty cache directory, also with the kernel\'s own '
+         'time stamps (stream wallclock).',
     note='Modelled not verified: parso parse/diff parser, pickle round trip, importlib finders in the helper '
          '(parameter `find` = function of the current file system; the FileFinder directory cache is exercised by '
-         'stream `finder`, not modelled), real time-stamp granularity (logical clock via os.utime).',
+         'stream `finder`, not modelled), the file system\'s time-stamp granularity (logical millisecond clock via '
+         'os.utime(ns=); ext4 keeps 1 ns, checked at start).',
     technique='Lean 4 proof over hand-written model + translator-extracted decisions + probed differential '
               'correspondence + fresh-process oracle',
     design='5.C09')
@@ -268,13 +277,20 @@ def apply_op(proj, op, clock, mtimes):
             m = mtimes[rel]
         else:                           # 'between': strictly newer, but older than any pickle written since
             m = mtimes[rel] + 1
-        tmp = full(rel) + '.tmp'
-        with open(tmp, 'w') as f:
-            f.write(content(rel, ver))
-        os.replace(tmp, full(rel))
-        _stamp(full(rel), m)
+        if os.path.exists(full(rel)):
+            # an editor saving in place: the directory is not touched and keeps its (older) mtime - the name
+            # is already in every listing; the only thing that changes besides the bytes is the file's mtime
+            with open(full(rel), 'w') as f:
+                f.write(content(rel, ver))
+            _stamp(full(rel), m)
+        else:
+            tmp = full(rel) + '.tmp'
+            with open(tmp, 'w') as f:
+                f.write(content(rel, ver))
+            os.replace(tmp, full(rel))
+            _stamp(full(rel), m)
+            touch_dir(rel)
         mtimes[rel] = m
-        touch_dir(rel)
         model.append({'t': 'tick', 'dt': dt})
         model.append({'t': 'write', 'p': rel, 'b': op['bytes_id'], 'm': m - BASE_MS})
     elif kind == 'delete':
@@ -615,6 +631,19 @@ def _loads(trace):
     return out
 
 
+def effective_policy(sc, si):
+    """the adversarial policy of a scenario only counts from the first step that really used it, and
+    'between' (strictly newer than the cached version, older than its pickle file) only for an observer that
+    reads pickles: a process that holds the tree in memory must notice a strictly newer mtime"""
+    used = {op.get('policy') for ops in sc['steps'][:si + 1] for op in ops} - {None, 'fresh'}
+    if sc['observer'] != 'warm':
+        used.discard('between')
+    for pol in (sc['policy'], 'keep', 'same', 'between'):      # generated scenarios mix their policy with 'keep'
+        if pol in used:
+            return pol
+    return 'fresh'
+
+
 def classify(policy, layer, spacing='sec'):
     """the shape of a stale answer: the adversarial stamp policies are the known findings; with 'fresh' stamps
     (every change strictly newer, at the file system's resolution, than every stamp any layer holds) there is
@@ -651,10 +680,13 @@ def _run(ctx):
     scs += layout_scenarios(ctx.seed)
     # every kind of imported file overwritten within the second it was cached / pickled in
     scs += subsecond_scenarios(ctx.seed)
+    # minimised past misses (corpus/C09/*.json: one scenario each)
+    scs += corpus_scenarios()
     # the kernel's own stamps
     wall = wallclock_items(ctx.seed)
     t0 = time.time()
-    results = [r[0] for r in pmap('run_scenario', [[s] for s in scs + wall], jobs=16, module='props.c09')]
+    results = [r[0] for r in pmap('run_scenario', [[s] for s in scs + wall], jobs=max(14, len(scs) + len(wall))
+                                  if ctx.quick else 14, module='props.c09')]
     wall_results = results[len(scs):]
     results = results[:len(scs)]
     common.log('[c09] scenarios: %.1fs (%s)' % (time.time() - t0, ' '.join(
@@ -731,7 +763,7 @@ def _run(ctx):
                           sample={'label': label, 'answer': a})
                 if a != b:
                     layer = (stale_loads.get(si) or [(None, None)])[0][1]
-                    shape = classify(sc['policy'], None, spacing)
+                    shape = classify(effective_policy(sc, si), None, spacing)
                     ctx.fail('oracle', 'a later Script answers differently from a fresh process with an empty cache '
                                        'on the same files (a definition of an earlier state is reported, or a '
                                        'new one is missed)',
@@ -822,11 +854,21 @@ def subsecond_scenarios(seed):
         last.clear()
         base = [w(r) for r in MODFILES] + [w(SPK_MOD), w(SPK_SIB)]
         steps = [base,
-                 [w('mod.py')],                                                 # other size
-                 [w('pkg/sib.py', True), w('pkg/sub.py'), w(SPK_SIB, True)],    # same size / other size
-                 [w('pkg/__init__.py'), w(SPK_MOD), w('mod.py', True)]]
+                 [w('mod.py'), w('pkg/sib.py', True), w(SPK_SIB, True)],        # other size / same size
+                 [w('pkg/sub.py'), w('pkg/__init__.py'), w(SPK_MOD), w('mod.py', True)]]
         out.append({'sid': 'u-%s-%d' % (observer, seed), 'observer': observer, 'policy': 'fresh',
                     'spacing': 'subsec', 'clock_seed': seed, 'steps': steps})
+    return out
+
+
+def corpus_scenarios():
+    import glob
+    out = []
+    for pth in sorted(glob.glob(os.path.join(common.VERIF, 'corpus', 'C09', '*.json'))):
+        with open(pth) as f:
+            sc = json.load(f)
+        sc['sid'] = 'corpus-' + os.path.splitext(os.path.basename(pth))[0]
+        out.append(sc)
     return out
 
 
